@@ -1,6 +1,8 @@
 import ElvisVerif.Props.C03Release
 import ElvisVerif.Props.C01Full
 import ElvisVerif.Lemmas.TcpRelOrder
+import ElvisVerif.Lemmas.TcpRelData
+import ElvisVerif.Props.C03FinData
 /-!
 # C03 — release after both applications close, from ANY reachable state of the closed system (closes after quiescence)
 
@@ -107,5 +109,114 @@ def afterConvCheck : Bool :=
     | .error _ => false)
 
 example : afterConvCheck = true := by decide
+
+/-! ## close issued while unsent text is still queued -/
+
+/-- **Close with data queued** (`_partial`: the starting states are the steady states of `Props/C01Converge.lean` with at
+    most one window of unsent text on the closing side and a quiet peer; the schedule is fixed).  Let `s` be a reachable
+    *steady* state of the closed system (both ESTABLISHED, MTU > SPACE_FOR_HEADERS, reorder heaps and receive buffers
+    empty, `RCV.NXT_peer = SND.NXT` both ways; any ISNs, MTUs, history) with empty retransmission and one-shot queues in
+    which A's application has written text that has not been segmentized yet (`0 < |unsent| ≤ 65535`) and B has nothing
+    to send.  A's application calls `close()` — FIN-WAIT-1, but NO FIN is formed (`queue_fin` while text is queued:
+    `fin_pending`).  Under `closeDataFront` (= `close A`, two exchange phases):
+    * phase 1: `segments()` in FIN-WAIT-1 cuts exactly the segments the ESTABLISHED endpoint would have cut
+      (`Tcb.segments_twin`), `fin_if_pending` then numbers the FIN **behind the last text byte** and it leaves in the same
+      batch; B takes the data in order and only then the FIN (CLOSE-WAIT); B's application reads: at that point
+      **everything A submitted has been handed to B's application** (`delivered_B = submitted_A`, by `c03_fin_after_data`);
+    * phase 2: B's ACKs (one per data segment, then the ACK of the FIN) empty A's retransmission queue and take A to
+      **FIN-WAIT-2**; B is in CLOSE-WAIT; nothing is queued, unsent, buffered or parked on either side (`RestX`).
+    When B's application then closes (`releaseTail` = `close B`, two exchange phases, `2·MSL + 1` ms on A's side): LAST-ACK,
+    A TIME-WAIT, **B's TCB is deleted by A's ACK of its FIN and A's by the TIME-WAIT timeout**; both streams are complete
+    and exact.  No step panics; the whole schedule is a `FinRun`.  NOT covered: more than one window of unsent text (the
+    closer keeps segmentizing in FIN-WAIT-1 over several phases), text unsent on both sides, retransmission queues
+    non-empty at the close (`C03ReleaseStatement`, `Props/C03Release.lean`). -/
+theorem c03_close_with_data_queued_partial (ia ib : Seq) (ma mb : U16) (simultaneous : Bool) (sys0 s : Sys)
+    (rs : List Res) (hma : SPACE_FOR_HEADERS ≤ ma.toNat) (hmb : SPACE_FOR_HEADERS ≤ mb.toNat)
+    (h0 : Sys.run {} [.open .A ia ma, if simultaneous then .open .B ib mb else .listen .B ib mb] = .ok (sys0, rs))
+    (hrun : PlainRun sys0 s) (h31 : RoomH s) (ta tb : Tcb) (hs : Steady s ta tb)
+    (qa : ta.outgoing.retransmit = []) (qb : tb.outgoing.retransmit = [])
+    (oa : ta.outgoing.oneshot = []) (ob : tb.outgoing.oneshot = []) (tbt : tb.outgoing.text = [])
+    (hne : ta.outgoing.text ≠ []) (hlen : ta.outgoing.text.length ≤ 65535) :
+    ∃ s1 ta1 tb1 s2, closeDataFront s = .ok s1 ∧ FinRun s s1 ∧ s1.a.tcb = some ta1 ∧ s1.b.tcb = some tb1 ∧
+      ta1.state = .FinWait2 ∧ tb1.state = .CloseWait ∧ RestX .A ta1 tb1 ∧ RestX .B tb1 ta1 ∧
+      s1.b.delivered = s1.a.submitted ∧ s1.a.submitted = s.a.submitted ∧
+      releaseTail s1 = .ok s2 ∧ closeDataRound s = .ok s2 ∧ FinRun s s2 ∧ s2.a.tcb = none ∧ s2.b.tcb = none ∧
+      s2.b.delivered = s2.a.submitted ∧ s2.a.delivered = s2.b.submitted ∧
+      s2.a.submitted = s.a.submitted ∧ s2.b.submitted = s.b.submitted := by
+  have hg := good_of_reach ia ib ma mb simultaneous sys0 s rs hma hmb h0 hrun h31
+  obtain ⟨s1, ta1, tb1, s2, e1, r1, h1a, h1b, sa, sb, ca, cb, u1, u2, u3, e12, e2, r2, na, nb, v1, v2, v3, v4, _⟩ :=
+    close_data_release s hg ta tb hs qa qb oa ob tbt hne hlen
+  -- everything A submitted has reached B's application when B is in CLOSE-WAIT
+  have hfr : FinRun sys0 s1 := (FinRun.of_plain hrun).trans r1
+  have hlt : C01.Lt31 s1 := by
+    have := h31.lt31
+    exact ⟨by show (s1.side .A).submitted.length < _; rw [u1]; exact this.1,
+      by show (s1.side .B).submitted.length < _; rw [u2]; exact this.2⟩
+  have hfin := (C03.c03_fin_after_data ia ib ma mb simultaneous sys0 s1 ⟨rs, h0⟩ hfr hlt .B tb1 h1b (by rw [sb]; rfl)).1
+  rw [cb.buf, List.append_nil] at hfin
+  have hdB : (s1.side .B).delivered = (s1.side .A).submitted := hfin
+  -- B had nothing unsent: A's application already holds everything B submitted
+  have hdA : (s.side .A).delivered = (s.side .B).submitted :=
+    steady_stream hg .B tb ta hs.hb hs.ha hs.b hs.a tbt
+  exact ⟨s1, ta1, tb1, s2, e1, r1, h1a, h1b, sa, sb, ca, cb, hdB, u1, e2, e12, r1.trans r2, na, nb,
+    by show (s2.side .B).delivered = (s2.side .A).submitted; rw [v4, hdB, u1, v1],
+    by show (s2.side .A).delivered = (s2.side .B).submitted; rw [v3, hdA, v2], v1, v2⟩
+
+/-- handshake completed, A's application has written [1, 2, 3] (nothing emitted yet), B is idle -/
+def dataOps : List Op :=
+  [.emit .A, .deliver .B 0, .emit .B, .deliver .A 1, .emit .A, .deliver .B 2, .write .A [1, 2, 3]]
+
+def closeDataCheck : Bool :=
+  match Sys.run {} [.open .A 1000 1500, .listen .B 5000 1500] with
+  | .ok (sys0, _) =>
+    match plainRunB sys0 dataOps with
+    | some s =>
+      decide (s.a.submitted.length + 2 < 2147483648) && decide (s.b.submitted.length + 2 < 2147483648) &&
+      (match s.a.tcb, s.b.tcb with
+        | some ta, some tb => steadyXB ta tb && steadyXB tb ta && ta.outgoing.retransmit.isEmpty &&
+            tb.outgoing.retransmit.isEmpty && ta.outgoing.oneshot.isEmpty && tb.outgoing.oneshot.isEmpty &&
+            tb.outgoing.text.isEmpty && ta.outgoing.text == [1, 2, 3]
+        | _, _ => false) &&
+      (match closeDataFront s with
+        | .ok s1 =>
+          (match s1.a.tcb, s1.b.tcb with
+            | some ta1, some tb1 => ta1.state == .FinWait2 && tb1.state == .CloseWait
+            | _, _ => false) && s1.b.delivered == [1, 2, 3] && s1.historyLen == 7 &&
+          (match releaseTail s1 with
+            | .ok s2 => s2.a.tcb.isNone && s2.b.tcb.isNone && s2.b.delivered == [1, 2, 3] && s2.a.delivered == [] &&
+                s2.historyLen == 9
+            | .error _ => false)
+        | .error _ => false)
+    | none => false
+  | .error _ => false
+
+/-- the hypotheses of `c03_close_with_data_queued_partial` hold in that reachable state, and the schedule, evaluated:
+    data segment, FIN, two ACKs (A in FIN-WAIT-2, B in CLOSE-WAIT holding [1, 2, 3]), then FIN and ACK: both TCBs deleted;
+    9 segments in all (3 handshake, 6 data / closing) -/
+example : ∃ sys0 s : Sys, ∃ rs, ∃ ta tb : Tcb,
+    Sys.run {} [.open .A 1000 1500, if false then .open .B 5000 1500 else .listen .B 5000 1500] = .ok (sys0, rs) ∧
+    PlainRun sys0 s ∧ RoomH s ∧ Steady s ta tb ∧ ta.outgoing.retransmit = [] ∧ tb.outgoing.retransmit = [] ∧
+    ta.outgoing.oneshot = [] ∧ tb.outgoing.oneshot = [] ∧ tb.outgoing.text = [] ∧ ta.outgoing.text ≠ [] ∧
+    ta.outgoing.text.length ≤ 65535 := by
+  have key : closeDataCheck = true := by decide
+  unfold closeDataCheck at key
+  split at key
+  · rename_i sys0 rs e0
+    split at key
+    · rename_i s e1
+      simp only [Bool.and_eq_true, decide_eq_true_eq] at key
+      obtain ⟨⟨⟨r1, r2⟩, k1⟩, _⟩ := key
+      split at k1
+      · rename_i ta tb hta htb
+        simp only [Bool.and_eq_true, List.isEmpty_iff, beq_iff_eq] at k1
+        obtain ⟨⟨⟨⟨⟨⟨⟨x1, x2⟩, x3⟩, x4⟩, x5⟩, x6⟩, x7⟩, x8⟩ := k1
+        exact ⟨sys0, s, rs, ta, tb, e0, plainRunB_sound _ _ _ e1, ⟨r1, r2⟩,
+          ⟨hta, htb, steadyXB_sound _ _ x1, steadyXB_sound _ _ x2⟩, x3, x4, x5, x6, x7, by rw [x8]; simp,
+          by rw [x8]; decide⟩
+      · simp at k1
+    · simp at key
+  · simp at key
+
+example : closeDataCheck = true := by decide
 
 end Elvis.Tcp
